@@ -171,7 +171,7 @@ def generate(seed: int, tier: str) -> Dict[str, Any]:
     if r.chance(0.12):
         # the free-form `flags` section accepts anything - also what only YAML can spell, and containers of it
         muts.append({"kind": "set", "path": ["flags", r.choice(["d", "since", "x"])],
-                     "value": {"$yaml": r.choice(["date", "set", "datetime", "binary", "list_of_set", "dict_of_date"])}})
+                     "value": {"$yaml": r.choice(["date", "set", "datetime", "binary", "list_of_set", "dict_of_date", "date_keyed", "tuple_keyed"])}})
     if r.chance(0.06):
         # a rejected value whose text representation contains a set inside a container
         muts.append({"kind": "set", "path": [r.choice(["version", "t2"])] if r.chance(0.5) else ["t2", "backend"], "value": {"$yaml": "list_of_set"}})
@@ -230,7 +230,9 @@ def build(p: Dict[str, Any]) -> Any:
             m = dict(m, value={"date": _dt.date(2024, 1, 1), "binary": b"hi", "set": {"a", "b"},
                                "datetime": _dt.datetime(2024, 1, 1, 12, 0, 0),
                                "list_of_set": [{"alpha", "beta", "gamma", "delta", "epsilon"}],
-                               "dict_of_date": {"since": _dt.date(2024, 1, 1)}}[m["value"]["$yaml"]])
+                               "dict_of_date": {"since": _dt.date(2024, 1, 1)},
+                               "date_keyed": {_dt.date(2020, 1, 1): True, "plain": 1},
+                               "tuple_keyed": {("a", 1): "x"}}[m["value"]["$yaml"]])
         if isinstance(m.get("value"), dict) and set(m["value"]) == {"$dict"}:
             m = dict(m, value={kv[0]: kv[1] for kv in m["value"]["$dict"]})
         if isinstance(m.get("value"), dict) and set(m["value"]) == {"$pow10"}:
